@@ -1,6 +1,6 @@
 (* C15 — JSON encoding round-trips values and agrees with plain JSON.
    Statements only; proofs are `exact <lemma>` into Proofs/JsonProofs.v (type codec: C07). *)
-From Cty Require Import Base Ty BigFloat Value Hash Ops Refine Json JsonProofs.
+From Cty Require Import Base Ty BigFloat Value Hash Ops Refine Json TyProofs JsonProofs JsonRoundTrip.
 Open Scope Z_scope.
 
 (* values JSON cannot represent are rejected with an error rather than mis-encoded *)
@@ -56,3 +56,27 @@ Print Assumptions C15_null_roundtrip.
 Print Assumptions C15_dynamic_wrapper.
 Print Assumptions C15_dynamic_unwrap.
 Print Assumptions C15_integer_text_refuted.
+
+(* ---- structural round trip, every depth ---- *)
+(* every known, unmarked value built from booleans, strings, nulls, lists, tuples, maps and objects ([RT]: the
+   payload is a value of the type; strings and names are fixed by the normaliser, keys sorted as cty keeps
+   them) is encoded, and the encoding decodes to exactly that value, through the public entry points with the
+   fuel they compute themselves *)
+Theorem C15_structural_roundtrip : forall norm t p, RT norm false t p ->
+  exists j, json_marshal (V t p) t = Ok j /\ json_unmarshal norm j t = Ok (V t p).
+Proof. exact json_roundtrip. Qed.
+Print Assumptions C15_structural_roundtrip.
+(* the same for any fuel above the nesting depth, with the size relation that makes the entry points' fuel enough *)
+Theorem C15_structural_roundtrip_any_fuel : forall norm n t p, RT norm false t p -> (pdepth p <= n)%nat ->
+  forall f f', (n < f)%nat -> (n < f')%nat ->
+  exists j, json_marshal_at f (V t p) t = Ok j /\ json_unmarshal_at norm f' j t = Ok (V t p) /\ (pdepth p <= jv_size j)%nat.
+Proof. intros norm. exact (roundtrip_at norm false eq_refl). Qed.
+Print Assumptions C15_structural_roundtrip_any_fuel.
+(* the premise is met by nested values *)
+Example C15_RT_nonvacuous :
+  RT (fun s => s) false (TObj [([97%N], TList (TTuple [TStr; TBool])); ([98%N], TMap TStr)] [])
+     (PMap [([97%N], PSeq [PSeq [PStr [120%N]; PBool true]; PNull]); ([98%N], PMap [([107%N], PStr []); ([108%N], PNull)])]).
+Proof.
+  apply RT_obj; [reflexivity|intros; reflexivity|].
+  repeat constructor; cbn; auto; try (intros; reflexivity).
+Qed.
